@@ -175,6 +175,7 @@ class Actor:
         self.in_seam = 0
         self.thread: Optional[Any] = None
         self.waiting_lock: Optional[Any] = None
+        self.log_outside = False
 
     def _main(self) -> None:
         _tls.actor = self
@@ -1151,6 +1152,17 @@ _AUDITED = frozenset(
 )
 
 
+_W_FLAGS = os.O_WRONLY | os.O_RDWR | os.O_CREAT | os.O_TRUNC | os.O_APPEND
+
+
+def _open_is_write(args: tuple) -> bool:
+    mode = args[1] if len(args) > 1 else None
+    flags = args[2] if len(args) > 2 else 0
+    if isinstance(mode, str) and any(c in mode for c in "wax+"):
+        return True
+    return bool(isinstance(flags, int) and flags & _W_FLAGS)
+
+
 def _audit(event: str, args: tuple) -> None:
     if event not in _AUDITED:
         return
@@ -1176,13 +1188,21 @@ def _audit(event: str, args: tuple) -> None:
             if cls is not None:
                 touched.append(cls)
     if not touched:
+        if actor.log_outside and (event != "open" or _open_is_write(args)):
+            a0 = args[0]
+            if isinstance(a0, (str, bytes)) or hasattr(a0, "__fspath__"):
+                p0 = os.fspath(a0)
+                if isinstance(p0, bytes):
+                    p0 = os.fsdecode(p0)
+                if "__pycache__" not in p0 and p0 != os.devnull:
+                    actor.audit.append((event, "outside", p0, None))
         return
     if actor.crashed:
         # kill switch: a dead process has no further effect on the file system
         raise SimCrash()
     extra: Any = None
     if event == "open":
-        extra = (args[1], args[2]) if len(args) > 2 else None
+        extra = "w" if _open_is_write(args) else "r"
     for role, rel in touched:
         actor.audit.append((event, role, rel, extra))
         if actor.in_seam == 0 and (role in sim.sched_roles or role in sim.fault_roles):
